@@ -46,6 +46,9 @@ RetOk(t) ==
         \/ callT >= dueLo /\ t = callT                       \* behind schedule: at once
         \/ callT < dueHi /\ t >= dueLo /\ t \in Rng(wakers)  \* on schedule: a tick that found it waiting, not early,
              /\ t1 # -1 /\ t >= t1 /\ (t2 = -1 \/ t <= t2)    \*   and the first such tick
+        \/ R.slow /\ callT < dueHi /\ t >= dueLo /\ (t2 = -1 \/ t <= t2)   \* ticks more than a second apart: the clock also looks
+                                                                         \* at the time by itself once a second - not early,
+                                                                         \* and no later than the first such tick
 
 Step ==
     LET e == Ev[l]
